@@ -5,10 +5,10 @@ from imports import imported
 
 PROPERTY = "C14"
 LEVEL = "proof"
-EXPLANATION = ""
-TRUSTED = []
+EXPLANATION = ("Sufficient condition for race freedom decided by frames: VmBase::allocate (run by every create_vm) writes only the VM, the allocator's result and thread-local storage; the generator's operand selection writes only the objects it is given (function-local statics are hoisted by the extraction so that the frame check sees them); dataset initialisation writes exactly the requested items; the light dataset read writes only the VM. Interleavings themselves are not explored; ThreadSanitizer replays confirm reported violations.")
+TRUSTED = ['ThreadSanitizer replays are dynamic checks of specific schedules (confirmation of reported violations only)', 'extraction rule: function-local non-const statics are hoisted to file scope so that the contract instrumentation does not add them to the frame silently; thread-local file-scope objects are added to the frame (RXV_THREAD_LOCAL_TARGETS)']
 ASSUMPTIONS = []
-NOT_DECIDED = []
+NOT_DECIDED = ['interleavings / memory model (no thread support in CBMC contracts): race freedom is concluded from disjoint frames only', 'compiled VM code buffers, hand-written assembly dataset initialiser re-entrancy', 'frames of the remaining per-VM operations (run, initScratchpad, getFinalResult) beyond what C02/C05 contracts state']
 INC = ["@suites/common"]
 VM_ALLOC = dict(XS.VM_ALLOCATE, pre_rewrites=XS.VM_ALLOCATE["pre_rewrites"] + [
     {"name": "hardware AES probe -> contract stand-in", "pattern": r"rx_aesenc_vec_i128\(", "repl": "rxv_hard_aesenc("}])
